@@ -53,7 +53,12 @@ pub fn c13_obs_pair(a: &[u8], b: &[u8]) -> String {
 		Guard::Ok(s) => s,
 		Guard::Panic(pm) => format!("panic: {pm}"),
 	};
-	format!("cmp[{cmp}] resolve[{res}] {rel}")
+	// the provided comparisons between the reference / non-reference, borrowed / owned forms
+	let cross = match c07_cross_obs(a, b) {
+		Guard::Ok(list) => format!("{:?}", list),
+		Guard::Panic(pm) => format!("panic: {pm}"),
+	};
+	format!("cmp[{cmp}] cross[{cross}] resolve[{res}] {rel}")
 }
 
 /// Observation of one mutation (given as JSON so that both families decode the same op).
@@ -62,11 +67,25 @@ pub fn c13_obs_mut(t: &[u8], op: &Value) -> String {
 		Some(o) => o,
 		None => return "bad-op".into(),
 	};
-	if !c04_applicable(BufTy::RiRefBuf, t, &op) {
-		return "n/a".into();
+	// the same operation on every owned type that offers it: the reference buffer, the
+	// non-reference buffer (when there is a scheme) and the stand-alone path buffer (path edits)
+	let path = syntax::split(t).path;
+	let mut out = String::new();
+	for (ty, text) in [(BufTy::RiRefBuf, t), (BufTy::RiBuf, t), (BufTy::PathBuf, &path[..])] {
+		if ty == BufTy::RiBuf && syntax::split(t).scheme.is_none() {
+			continue;
+		}
+		if ty == BufTy::PathBuf && !valid(Kind::Path, text) {
+			continue;
+		}
+		if !c04_applicable(ty, text, &op) {
+			out.push_str(&format!("{}: n/a; ", ty.name()));
+			continue;
+		}
+		match guard(|| c04_exec(ty, text, &op)) {
+			Guard::Ok(x) => out.push_str(&format!("{}: {}; ", ty.name(), lossy(&x))),
+			Guard::Panic(pm) => out.push_str(&format!("{}: panic: {pm}; ", ty.name())),
+		}
 	}
-	match guard(|| c04_exec(BufTy::RiRefBuf, t, &op)) {
-		Guard::Ok(x) => lossy(&x),
-		Guard::Panic(pm) => format!("panic: {pm}"),
-	}
+	out
 }
